@@ -79,6 +79,7 @@ def parse(line):
                               "src": "mjgen(c09) seed=%d step=%d" % (r["seed"], r["step"])})
     r["jar"] = jar
     r["tbias"] = nums(1)[0] if p < len(t) else 0.0
+    r["ds"], r["jnt_m2"], r["jnt_single"], r["anyd"] = ints(4) if p + 4 <= len(t) else (0, 0, 0, 1)
     return r
 
 
@@ -206,6 +207,7 @@ def law_tie(ctx, recs, exe12, stats):
 
 def oracle(ctx, recs, stats):
     nconv, ntot, nontrivial = 0, 0, 0
+    ndiv = [0]
     combos = {}
     for r in recs:
         nv = r["nv"]
@@ -217,7 +219,7 @@ def oracle(ctx, recs, stats):
         combos[name] = combos.get(name, 0) + 1
         case = {"src": r["cfg"]["src"], "replay": {"seed": r["seed"], "step": r["step"]}, "integrator": INTEG[r["integ"]], "solver": SOLVER[r["solver"]],
                 "cone": "elliptic" if r["cone"] else "pyramidal", "mjDSBL_EULERDAMP": bool(r["eoff"]), "mjDSBL_DAMPER": bool(r["doff"]), "nv": nv, "nefc": r["nefc"],
-                "max |tendon-armature bias|": r["tbias"], "rows": {"equality": r["ne"], "friction": r["nf"], "elliptic": r["nell"], "pyramidal": r["npyr"], "limit": r["nlim"]}, "niter": r["niter"]}
+                "max |tendon-armature bias|": r["tbias"], "damping-source stratum": r["ds"], "joints with several damped/armature actuators": r["jnt_m2"], "rows": {"equality": r["ne"], "friction": r["nf"], "elliptic": r["nell"], "pyramidal": r["npyr"], "limit": r["nlim"]}, "niter": r["niter"]}
         sig0 = {"integrator": INTEG[r["integ"]], "cone": case["cone"]}
         def viol(site, cls, expected, observed, theorem):
             ctx.violation("impl_violation", case, expected=expected, observed=observed, theorem=theorem, signature=dict(sig0, site=site, **{"class": cls}))
@@ -225,6 +227,12 @@ def oracle(ctx, recs, stats):
         allv = r["inverse"] + r["force_inv"] + (r["inverse_d"] + r["force_inv_d"] if r["disc"] else [])
         if not all(math.isfinite(x) for x in allv):
             viol("mj_inverse", "non-finite", "finite outputs", "NaN/inf", "C09_identity")
+            continue
+        if mx(r["qacc"]) > 1e6 or sc > 1e8 or (r["disc"] and mx(r["ad"]) > 1e6):
+            # the simulation has numerically diverged before this sample (accelerations / forces beyond 1e6 / 1e8): relative comparisons of
+            # ill-conditioned maps on such a state say nothing about the property
+            stats.add("diverged state (skipped)")
+            ndiv[0] += 1
             continue
         ntot += 1
         mis = [r["inverse"][i] - tot[i] for i in range(nv)]
@@ -271,6 +279,7 @@ def oracle(ctx, recs, stats):
                      {"relative qfrc_inverse mismatch": ed, "relative efc_force mismatch": efd}, "C09_discrete_partial")
             else:
                 stats.add("invdiscrete: inverse = applied: %s%s%s" % (INTEG[r["integ"]], " eulerdamp-off" if r["eoff"] else "", " damper-off" if r["doff"] else ""))
+    combos["(diverged states skipped)"] = ndiv[0]
     return ntot, nconv, nontrivial, combos
 
 
@@ -308,6 +317,8 @@ def run(ctx):
     if not rep:
         if len(recs) < 40:
             ctx.broken.append(("oracle", "too few forward/inverse records were produced", "%d" % len(recs)))
+        if ntot < 0.9 * max(1, len(recs)):
+            ctx.broken.append(("oracle", "too many records are skipped as numerically diverged states", "%d of %d kept" % (ntot, len(recs))))
         if nconv < 0.8 * max(1, ntot):
             ctx.broken.append(("oracle", "the forward solver converged on too few records for the oracle to mean anything", "%d of %d" % (nconv, ntot)))
     tm["oracle"] = round(time.time() - t0, 1); t0 = time.time()
@@ -323,6 +334,17 @@ def run(ctx):
                        "integrator on the forward solution, mj_inverse with invdiscrete, mj_compareFwdInv; non-trivial = converged record with >= 4 rows of >= 2 kinds")
     ctx.cov["records_by_configuration"] = combos
     ctx.cov["converged_records"] = nconv
+    DS = {0: "as generated", 1: "no damping", 2: "joint damping on the last dof only", 3: "polynomial joint damping only", 4: "one damped actuator",
+          5: "two damped actuators on one joint (jnt_actuatorid=-2)", 6: "two armature-only actuators on one joint", 7: "damped + polynomial-damped actuators on one joint"}
+    strata = {}
+    for r in recs:
+        k = "%s / %s" % (INTEG[r["integ"]], DS.get(r["ds"], r["ds"]))
+        strata[k] = strata.get(k, 0) + 1
+    ctx.cov["records_by_integrator_and_damping_source"] = strata
+    nm2 = sum(1 for r in recs if r["integ"] == 0 and r["jnt_m2"] > 0 and not r["anyd"] and not r["eoff"] and not r["doff"] and r["disc"])
+    ctx.cov["euler_invdiscrete_records_damped_only_through_several_actuators"] = nm2
+    if not rep and nm2 < 3:
+        ctx.broken.append(("oracle", "too few Euler/invdiscrete records whose only damping comes from several actuators on one joint", "%d" % nm2))
     ntb = sum(1 for r in recs if r["tbias"] > 1e-6)
     ctx.cov["records_with_nonzero_tendon_armature_bias"] = ntb
     if not rep and ntb < 0.1 * max(1, len(recs)):
